@@ -49,7 +49,7 @@ func init() {
 			"(D2) the pointer fields of a handler receiver type that a reachable function sets to nil are nullable (today: the account group context, cleared on deactivation). Every dereference of a value read from such a field, or returned by a function that may return it (accessor summaries), must be dominated by the non-nil side of a nil test of that same value; a test of another read of the field, or an assignment of a non-nil value to it, counts only while a lock of the owning struct is held from there to the use. " +
 			"(D3) pointer-to-message fields of a handler's request parameter are nullable (proto3 leaves them nil when absent): a field access, or passing the value to a module function whose summary says it dereferences that parameter on a path without a nil test (generated getters come out nil-safe from their bodies), must be dominated by a nil test of the value or of another read of the same request field. " +
 			"(D4) a module function with a return that carries nil (or a nullable value) together with a nil error is a nullable source for all its callers; a function that returns nil with a non-nil error is a nullable source at the points not dominated by the nil side of a test of that call's error (helpers that hand back the error they were given are seen through). Correlated results are honoured (the comma-ok idiom of module functions): when every nil-without-error return of the callee carries the same constant in one of its bool results and every other success return carries the opposite constant, a use dominated by the side of a test of that result, of that very call, on which it has the opposite value is guarded; wrappers that pass the value on only on that side therefore do not become nullable sources themselves, and a function that returns the value together with that very flag of the same call (return f()) inherits the correlation, merged with its own constant returns. Return statements the compiler merged into one return of phis are read per predecessor, and a named result that no store can reach on the way to a bare return counts as its zero value.One obligation per (caller, callee) pair in reachable code. The same engine is also run on the module's remaining non-test functions (the exported API no handler reaches, e.g. WeshOrbitDB.OpenGroupReplication); what it finds there is outside the property and is only written to the notes, prefixed \"outside the property's scope:\". " +
-			"(D5) in the exported functions of pkg/cryptoutil, every slice expression with a bound, index expression or slice-to-array conversion on a byte slice must be control-dependent on a comparison involving len of that same slice. " +
+			"(D5) in the exported functions of pkg/cryptoutil, every slice expression with a bound, index expression or slice-to-array conversion on a byte slice needs its length established. With constant bounds (r[:32], x[3], conversion to [N]byte) the length facts of D6 are used: len >= bound must follow from a dominating comparison of len of that slice with a constant (so a weakened test such as len > 0 is reported), from a slice of an array or a make, or from the slice being the result of a module function all of whose non-nil returns have that fact, at a call site where its error was tested nil. With bounds computed at run time (data[:n]) the operation must be control-dependent on a comparison involving len of that same slice; whether that comparison is the right one is not decided. " +
 			"(D6) every module call of a library function that panics when a byte-slice argument has the wrong length (table read off the module's actual callees: ed25519.NewKeyFromSeed 32, ed25519.Sign/PrivateKey.Sign 64, ed25519.Verify 32, PrivateKey.Seed/Public >= 32, cipher.NewCTR/CBC/CFB/OFB IV == block size, AEAD Seal/Open nonce == nonce size, binary.ByteOrder (Put)UintN >= N/8, a []byte key boxed into aead/ecdh ComputeSecret 32) and every slice-to-array conversion is one obligation. The required length must hold on every path: slice of a fixed-size array or with constant bounds, make with a constant (or, for run-time sizes, [:n] / make(n)), result of a module function whose returns all have it, parameter for which every static module caller has it, X25519 shared secret, io.ReadAll(io.LimitReader(hkdf, K)) on the nil-error side (an HKDF stream delivers 255 hash lengths before failing, so a nil error means exactly K bytes), or a comparison of len of the same value (or of another read of the same access path) with a constant whose outcome on the dominating edge gives the bound: a comparison with the wrong constant does not count. If it does not hold, the site is a violation when the bytes derive from a handler's request (D1's value flow), are read from a field of a protobuf message, or reach the call as the argument of an exported pkg/cryptoutil function (module callers, when there are any, count for establishing the length, not for trusting the bytes); otherwise it is listed as an internal buffer. For run-time sizes (block size, nonce size) an equality test against any run-time value or any constant length is accepted as written. " +
 			"(D7) for every close(ch) in reachable code whose channel can be traced to make(chan) instructions (through local variables, variables captured by closures, phis and the arguments of static calls): every send on the same channel objects must run on the same goroutine as the close, and no second close may follow it. A function runs on goroutine go:<f> when it is the target of a go statement, otherwise on the goroutines of its callers (a closure that is called, deferred or handed to a callee runs on its creator's goroutine). A close in the creating function on a path that shares no CFG path with the go statement that starts the sender (early error return before the goroutine is started) is accepted; a deferred close counts from its defer statement. Closes of channels held in struct fields, maps or returned by calls are listed in the notes as not decided; synchronisation that orders a foreign close after the last send (WaitGroup) is not recognised and would be reported. " +
 			"(D8) every type assertion without comma-ok in reachable code is one obligation. It is accepted when the operand's static interface type already satisfies the asserted interface, or when a successful comma-ok assertion of the same value to the same (or an implying) type dominates it. Otherwise the set of dynamic types of the operand is derived where the module's code determines it: values boxed in the module, results of module functions, phis and captured variables, values sent on a channel created in reachable code, the event types an event-bus subscription was created for (Subscribe(new(T)) or a literal list; libp2p delivers only those), proto.Clone of such a value, and a field of the entries of a package-level map literal that is assigned nowhere else (the event-type table); every member of the set must be identical to, or implement, the asserted type, and the report names the ones that do not. Where the set cannot be derived (results of dependencies such as BaseStore.Index, container/list and container/heap elements) the site is listed as not decided, never as a violation. " +
@@ -1522,7 +1522,8 @@ func c19ValueLabel(v ssa.Value) string {
 	return "local value"
 }
 
-func c19RunD5(c *Ctx) {
+func c19RunD5(c *Ctx, n *c19Nil) {
+	lf := &c19Len{c: c, n: n, retM: map[*ssa.Function]*c19LenFact{}, busy: map[*ssa.Function]bool{}}
 	sp := c.W.pkg(c19PkgCryptoutil)
 	if sp == nil {
 		c.undecided("D5", "package:pkg/cryptoutil", token.NoPos, "package %s not loaded", c19PkgCryptoutil)
@@ -1554,7 +1555,12 @@ func c19RunD5(c *Ctx) {
 		}
 		per := map[ssa.Value]*agg{}
 		var order []ssa.Value
-		note := func(v ssa.Value, in ssa.Instruction, what string, needs bool) {
+		// need: the length the operation requires when its bounds are constants (-1: bounds
+		// computed at run time). With constant bounds the length must be established as an
+		// interval fact (dominating comparison with a constant that gives len >= need, slice of
+		// an array, make, or the result of a module function whose returns all have the fact);
+		// with run-time bounds a comparison on len of the value that decides the operation counts.
+		note := func(v ssa.Value, in ssa.Instruction, what string, needs bool, need int64) {
 			a := per[v]
 			if a == nil {
 				desc := ""
@@ -1569,8 +1575,21 @@ func c19RunD5(c *Ctx) {
 				order = append(order, v)
 			}
 			a.n++
-			if needs && !c19LenGuarded(v, in) {
-				a.bad = append(a.bad, what+" at "+c.pos(posOf(in)))
+			if needs {
+				f := lf.fact(v, in, 0, map[ssa.Value]bool{})
+				okLen := false
+				if need >= 0 {
+					okLen = f.Known && f.Lo >= need
+				} else {
+					okLen = c19LenGuarded(v, in) || f.DynEq || f.DynGe
+				}
+				if !okLen {
+					w := what + " at " + c.pos(posOf(in))
+					if need >= 0 {
+						w += fmt.Sprintf(" needs len >= %d, established: %s", need, f.String())
+					}
+					a.bad = append(a.bad, w)
+				}
 			}
 		}
 		for _, b := range fn.Blocks {
@@ -1584,14 +1603,39 @@ func c19RunD5(c *Ctx) {
 					if k, ok := constInt(x.Low); ok && k == 0 {
 						lowZero = true
 					}
-					note(x.X, x, "slice expression", !(lowZero && x.High == nil && x.Max == nil))
+					need := int64(-1)
+					if x.High != nil {
+						if hi, ok := constInt(x.High); ok {
+							need = hi
+							if x.Max != nil {
+								if mx, ok := constInt(x.Max); ok && mx > need {
+									need = mx
+								} else if !ok {
+									need = -1
+								}
+							}
+						}
+					} else if x.Low != nil && x.Max == nil {
+						if lo, ok := constInt(x.Low); ok {
+							need = lo
+						}
+					}
+					note(x.X, x, "slice expression", !(lowZero && x.High == nil && x.Max == nil), need)
 				case *ssa.IndexAddr:
 					if c19IsByteSlice(x.X.Type()) {
-						note(x.X, x, "index expression", true)
+						need := int64(-1)
+						if i, ok := constInt(x.Index); ok {
+							need = i + 1
+						}
+						note(x.X, x, "index expression", true, need)
 					}
 				case *ssa.SliceToArrayPointer:
 					if c19IsByteSlice(x.X.Type()) {
-						note(x.X, x, "conversion to an array", true)
+						need := int64(-1)
+						if nArr, ok := c19ArrayLen(x.Type()); ok {
+							need = nArr
+						}
+						note(x.X, x, "conversion to an array", true, need)
 					}
 				}
 			}
@@ -1603,7 +1647,7 @@ func c19RunD5(c *Ctx) {
 			a := per[v]
 			construct := fnName(fn) + "+" + a.name
 			if len(a.bad) == 0 {
-				c.ok("D5", construct, a.pos, "%d slicing/indexing operation(s) on byte slice %s, each with a bound that is either the full range or decided after a comparison on its length", a.n, a.desc)
+				c.ok("D5", construct, a.pos, "%d slicing/indexing operation(s) on byte slice %s, each with a bound that is either the full range, within the length established for the slice, or decided after a comparison on its length", a.n, a.desc)
 			} else {
 				c.fail("D5", construct, a.pos, "exported helper %s cuts byte slice %s without a preceding test of its length (%s): an input shorter than the bound makes it panic instead of returning an error", fnName(fn), a.desc, strings.Join(a.bad, "; "))
 			}
@@ -1838,7 +1882,7 @@ func runC19(c *Ctx) {
 	}
 	c.count("D4.call_sites_with_nil_on_error_results", nOnErr)
 
-	c19RunD5(c)
+	c19RunD5(c, n)
 	c19RunD6(c, n, taint, fns)
 	c19RunD7D8(c, n, fns)
 	c.note("no recovery interceptor is installed on the gRPC servers created by the module (NewClientFromService, NewOutOfStoreMessageServiceClient): a panic in a handler terminates the process; noted, not required by the rules")
